@@ -128,7 +128,10 @@ Theorem roundtrip_decimal :
       (forall f, In f fs -> ~ In (f_id F f) ids0) ->
       exists c',
         import_all F parsef parse_int_c (save_all F fmtf dec8 fs) (ids0, c0)
-        = (LOk fs, (ids0 ++ map (f_id F) fs, c')).
+        = (LOk fs, (ids0 ++ map (f_id F) fs, c'))
+        /\ c0 <= c'
+        /\ ((forall i, In i ids0 -> i < c0) ->
+            forall i, In i (ids0 ++ map (f_id F) fs) -> i < c').
 Proof.
   intros F fmtf parsef H1 H2. apply roundtrip_partial; auto using parse_int_dec8, dec8_digits_ok.
 Qed.
